@@ -34,7 +34,8 @@ method), 'object' (an instance of a class with `async def __call__` — no __nam
 functools.partial of the method).  case['failwith'] (optional) = what a scripted ['fail'] makes the function raise: 'exc' (an
 ordinary Exception), 'cancel' (asyncio.CancelledError raised by the function itself — nobody cancels the buffer's task, so
 it is a failed call like any other), 'alt' / 'alt2' (alternating by call number, starting with the Exception / the
-CancelledError).  When absent both are derived from a checksum of the event list (fn_kind / fail_kind), so every generator
+CancelledError).  case['aiter'] (optional) = what an 'async' producer is: 'gen' (an async generator) or 'class' (an object
+with only __aiter__ / __anext__ — no aclose / asend / athrow).  When absent all three are derived from a checksum of the event list (fn_kind / fail_kind), so every generator
 layer covers all combinations; the shrinker writes them into the case so that they stay fixed.  The model's event is FnFail.
 
 Everything the buffered function / the producers do is scripted: the function
@@ -90,6 +91,37 @@ def fn_kind(case):
 
 def fail_kind(case):
     return case.get('failwith') or FAIL_KINDS[_checksum(case) % 4]
+
+
+def aiter_kind(case):
+    return case.get('aiter') or ('gen', 'class')[(_checksum(case) // 12) % 2]
+
+
+class _ClassAIter:
+    """a class-based asynchronous iterator: __aiter__ / __anext__ only (no aclose, asend, athrow)"""
+
+    def __init__(self, run, p):
+        self._run, self._p = run, p
+
+    def __aiter__(self):
+        return self
+
+    async def __anext__(self):
+        p = self._p
+        while not p.acts:
+            p.waiter = self._run.sim.loop.create_future()
+            try:
+                await p.waiter
+            finally:
+                p.waiter = None
+        a = p.acts.pop(0)
+        if a[0] == 'y':
+            return a[1]
+        if a[0] == 'f':
+            if p.pid % 2:
+                raise asyncio.CancelledError()
+            raise ProdErr(f'producer {p.pid} failed')
+        raise StopAsyncIteration
 
 
 class _FnObject:
@@ -334,6 +366,10 @@ class Run:
         self.vals = {int(k): v for k, v in (case.get('vals') or {}).items()}
         self.fn_kind = fn_kind(case)
         self.fail_kind = fail_kind(case)
+        self.aiter_kind = aiter_kind(case)
+
+    def aprod(self, p):
+        return _ClassAIter(self, p) if self.aiter_kind == 'class' else self.agen(p)
 
     def wrapped(self):
         if self.fn_kind == 'object':
@@ -434,7 +470,7 @@ class Run:
         if kind == 'async':
             p = _Prod(pid, False)
             self.prods[pid] = p
-            return (lambda: b.amap(self.agen(p))), (lambda: self.agen(p))
+            return (lambda: b.amap(self.aprod(p))), (lambda: self.aprod(p))
         raise ValueError(kind)
 
     def handler(self, ev):
@@ -915,7 +951,7 @@ def shrink_candidates(case):
     evs = case['evs']
     if any(e[0] == 'burst' and e[2] >= BIG_BURST for e in evs):
         return []
-    case = dict(case, fn=fn_kind(case), failwith=fail_kind(case))     # keep the flavours of the original while shrinking
+    case = dict(case, fn=fn_kind(case), failwith=fail_kind(case), aiter=aiter_kind(case))     # keep the flavours of the original while shrinking
     out = []
     for i in range(len(evs)):
         out.append(dict(case, evs=evs[:i] + evs[i + 1:]))
@@ -1027,6 +1063,8 @@ def burst_case(n, shape='A', T=8):
         evs = [['burst', 0, n, 1], ['wait', 0, True], ['ok'], ['wait', 1, False]]
     elif shape == 'B':      # the timer delivers the burst; wait afterwards, one more submission, wait again
         evs = [['burst', 0, n, 1], ['adv', T + 1], ['ok'], ['wait', 0, False], ['sub', n, 'plain', n + 1], ['wait', 1, True]]
+    elif shape == 'D':      # the plain debounce: one call with the whole burst, timeout after it
+        evs = [['burst', 0, n, 1], ['adv', T + 1], ['ok']]
     else:                   # the burst arrives while a call is running
         evs = [['sub', 0, 'plain', 1], ['adv', T + 1], ['burst', 1, n, 2], ['ok'], ['wait', 0, True], ['ok'], ['wait', 1, True]]
     return dict(T=T, evs=evs + settle_tail(T, evs))
@@ -1200,7 +1238,8 @@ def distribution(cases, obs):
              pyield=0, pfail=0, pend=0, advance=0, wait_cancel=0, wait_nocancel=0, fnok=0, fnfail=0,
              shutdown=0, foreign=0, submit_then_wait=0, fn_starts=0, fn_ok=0, fn_failed=0, wait_returns=0,
              daemon_ended=0, hang=0, T8=0, T100=0, T1024=0, T_other=0, settled_tail=0, unusual_values=0, none_in_iterator=0,
-             fn_method=0, fn_object=0, fn_partial=0, fnfail_exception=0, fnfail_cancellederror=0)
+             fn_method=0, fn_object=0, fn_partial=0, fnfail_exception=0, fnfail_cancellederror=0,
+             async_generator_producers=0, class_based_async_iterators=0)
     keymap = {'py': 'pyield', 'pf': 'pfail', 'pe': 'pend', 'adv': 'advance', 'ok': 'fnok', 'fail': 'fnfail',
               'shutdown': 'shutdown', 'fclear': 'foreign', 'fput': 'foreign', 'okfclear': 'foreign',
               'fputwait': 'foreign', 'fputl': 'foreign'}
@@ -1209,6 +1248,8 @@ def distribution(cases, obs):
         evs = c['evs']
         d['events'] += len(evs)
         d['fn_' + fn_kind(c)] += 1
+        na = sum(1 for e in evs if 'async' in e[2:6] and e[0] in ('sub', 'fput', 'fputl', 'subwait', 'fputwait'))
+        d['class_based_async_iterators' if aiter_kind(c) == 'class' else 'async_generator_producers'] += na
         fk = fail_kind(c)
         if isinstance(o, dict) and 'obs' in o:
             for st in o['obs']:
